@@ -187,6 +187,8 @@ GROUPS['smul'] = [
     A([x_, a_, b_], mm(smul(x_, a_), b_) == smul(x_, mm(a_, b_)), [mm(smul(x_, a_), b_)]),
     A([x_, a_, b_], mm(a_, smul(x_, b_)) == smul(x_, mm(a_, b_)), [mm(a_, smul(x_, b_))]),
     A([a_], smul(1, a_) == a_, [smul(1, a_)]),
+    # a 1 x 1 matrix acts as a scalar
+    A([a_, b_], z3.Implies(z3.And(rows(a_) == 1, cols(a_) == 1, rows(b_) == 1), mm(a_, b_) == smul(ent(a_, 0, 0), b_)), [mm(a_, b_)]),
     A([x_, y_, a_], smul(x_, smul(y_, a_)) == smul(x_ * y_, a_), [smul(x_, smul(y_, a_))]),
     A([x_, a_, m_, n_], ent(smul(x_, a_), m_, n_) == x_ * ent(a_, m_, n_), [ent(smul(x_, a_), m_, n_)]),
     A([a_, b_, m_, n_], ent(madd(a_, b_), m_, n_) == ent(a_, m_, n_) + ent(b_, m_, n_), [ent(madd(a_, b_), m_, n_)]),
